@@ -76,6 +76,11 @@ func (d *driver) build(race bool) (string, error) {
 		out += "-race"
 		args = append(args, "-race")
 	}
+	if os.Getenv("VERIF_COVER") != "" {
+		// development aid: statement coverage of the library under the
+		// workloads of this check (go tool covdata on $VERIF_COVER)
+		args = append(args, "-cover", "-covermode=atomic", "-coverpkg=verif/cmd/worker,github.com/santhosh-tekuri/raft,github.com/santhosh-tekuri/raft/log,github.com/santhosh-tekuri/raft/mmap")
+	}
 	if repoDir != "/repo" {
 		// build against another copy of the repository (seed / mutation tests
 		// work on scratch worktrees): same module file with the replace moved
@@ -300,6 +305,10 @@ func (d *driver) execOne(s runSpec) *runResult {
 	cmd.Stdout = stderr
 	cmd.Stderr = stderr
 	cmd.Env = append(os.Environ(), "GORACE=halt_on_error=0 log_path="+filepath.Join(out, "race"), "GOTRACEBACK=all")
+	if cd := os.Getenv("VERIF_COVER"); cd != "" {
+		_ = os.MkdirAll(cd, 0755)
+		cmd.Env = append(cmd.Env, "GOCOVERDIR="+cd)
+	}
 	t0 := time.Now()
 	err := cmd.Run()
 	stderr.Close()
